@@ -250,6 +250,7 @@ Theorem sort_row_index_slot_in_bounds : forall ts L,
                 forall c2 off2, (c < c2)%nat -> nth_error (sl_offsets L) c2 = Some off2 -> off + w <= off2.
 Proof.
   intros ts L H. unfold sort_layout_of in H.
+  destruct (existsb is_nested ts); [discriminate|].
   destruct (forallb (fun t => match key_w t with Some _ => true | None => false end) ts) eqn:EF; [|discriminate].
   injection H as H. subst L. cbn [sl_offsets sl_widths sl_compare sl_width]. split; [reflexivity|].
   intros c off Ho. destruct (offsets_from_spec _ key_w0 ts 0 c off Ho) as [t [Ht [_ [Hend Hlater]]]].
@@ -258,9 +259,22 @@ Proof.
   split; [apply map_nth_error; exact Ht|]. split; [exact Hend|exact Hlater].
 Qed.
 
-(* lists and structs as sort keys: the width function is `unimplemented!()` *)
-Theorem sort_layout_list_panics : sort_layout_of [PI32; PList] = Panic.
+(* lists and structs as sort keys are refused with an error; the width function's `unimplemented!()` is never
+   reached: the layout never panics *)
+Theorem sort_layout_list_errs : sort_layout_of [PI32; PList] = Err.
 Proof. reflexivity. Qed.
+
+Theorem sort_layout_never_panics : forall ts, sort_layout_of ts <> Panic.
+Proof.
+  intros ts H. unfold sort_layout_of in H.
+  destruct (existsb is_nested ts) eqn:EN; [discriminate|].
+  destruct (forallb (fun t => match key_w t with Some _ => true | None => false end) ts) eqn:EF; [discriminate|].
+  clear H. induction ts as [|t r IH]; cbn [existsb forallb] in EN, EF; [discriminate|].
+  apply orb_false_iff in EN. destruct EN as [Ht Hr].
+  destruct (key_w t) eqn:EK.
+  - cbn [andb] in EF. exact (IH Hr EF).
+  - destruct t; cbn in EK, Ht; discriminate.
+Qed.
 
 (* ---------------------------------------------------------------- prepare_append *)
 Definition okb (b : block) : Prop := b_res b <= b_cap b.
